@@ -1075,14 +1075,28 @@ Proof.
   - destruct m; [discriminate C|]. apply IH. exact C.
   - discriminate C.
   - destruct how; try discriminate C.
-    destruct (compile l) as [cl|] eqn:El; [|discriminate C]. destruct (compile r) as [cr|] eqn:Er; [|discriminate C].
-    inversion C; subst; clear C. destruct (IHl cl eq_refl) as [L1 L2]. destruct (IHr cr eq_refl) as [R1 R2].
-    constructor; cbn [base_rows c_from c_cols c_defs].
-    + intros d b x Hb Hx. apply in_flat_map in Hb. destruct Hb as [bl [Hbl Hb]]. apply in_map_iff in Hb.
-      destruct Hb as [br [<- Hbr]]. apply filter_In in Hbr. destruct Hbr as [Hbr _]. rewrite map_app in Hx.
-      apply in_or_app. apply in_app_or in Hx. destruct Hx as [Hx|Hx]; [left; apply (L1 d bl x Hbl Hx)|right; apply (R1 d br x Hbr Hx)].
-    + intros x y H. apply in_or_app. destruct (def_of_app_cases (c_defs cr) (c_defs cl) x) as [E|E]; rewrite E in H;
-        [right; apply (R2 x y H)|left; apply (L2 x y H)].
+    + destruct (compile l) as [cl|] eqn:El; [|discriminate C]. destruct (compile r) as [cr|] eqn:Er; [|discriminate C].
+      inversion C; subst; clear C. destruct (IHl cl eq_refl) as [L1 L2]. destruct (IHr cr eq_refl) as [R1 R2].
+      constructor; cbn [base_rows c_from c_cols c_defs].
+      * intros d b x Hb Hx. apply in_flat_map in Hb. destruct Hb as [bl [Hbl Hb]]. apply in_map_iff in Hb.
+        destruct Hb as [br [<- Hbr]]. apply filter_In in Hbr. destruct Hbr as [Hbr _]. rewrite map_app in Hx.
+        apply in_or_app. apply in_app_or in Hx. destruct Hx as [Hx|Hx]; [left; apply (L1 d bl x Hbl Hx)|right; apply (R1 d br x Hbr Hx)].
+      * intros x y H. apply in_or_app. destruct (def_of_app_cases (c_defs cr) (c_defs cl) x) as [E|E]; rewrite E in H;
+          [right; apply (R2 x y H)|left; apply (L2 x y H)].
+    + destruct (compile l) as [cl|] eqn:El; [|discriminate C]. destruct (compile r) as [cr|] eqn:Er; [|discriminate C].
+      inversion C; subst; clear C. destruct (IHl cl eq_refl) as [L1 L2]. destruct (IHr cr eq_refl) as [R1 R2].
+      constructor; cbn [base_rows c_from c_cols c_defs].
+      * intros d b x Hb Hx. apply in_flat_map in Hb. destruct Hb as [bl [Hbl Hb]].
+        match type of Hb with context [filter ?p ?L] => destruct (filter p L) as [|m ms] eqn:Ef end.
+        -- destruct Hb as [<-|[]]. apply in_or_app. left. apply (L1 d bl x Hbl Hx).
+        -- change (In b (map (fun br : list (uid * value) => (bl ++ br)%list) (m :: ms))) in Hb.
+           apply in_map_iff in Hb. destruct Hb as [br [<- Hbr]].
+           assert (Hbr' : In br (base_rows d cr)).
+           { assert (Hin : In br (m :: ms)) by exact Hbr. rewrite <- Ef in Hin. apply filter_In in Hin. tauto. }
+           rewrite map_app in Hx. apply in_or_app. apply in_app_or in Hx.
+           destruct Hx as [Hx|Hx]; [left; apply (L1 d bl x Hbl Hx)|right; apply (R1 d br x Hbr' Hx)].
+      * intros x y H. apply in_or_app. destruct (def_of_app_cases (c_defs cr) (c_defs cl) x) as [E|E]; rewrite E in H;
+          [right; apply (R2 x y H)|left; apply (L2 x y H)].
   - destruct (compile l) as [cl|] eqn:El; [|discriminate C]. destruct (compile r) as [cr|] eqn:Er; [|discriminate C].
     destruct (union_right_select cl cr) as [rsel|]; [|discriminate C]. inversion C; subst; clear C.
     constructor; cbn [base_rows c_from c_cols c_defs].
@@ -1132,6 +1146,11 @@ Proof. induction l as [|x l IH]; simpl; [reflexivity|]. destruct (q x) eqn:Q, (p
 
 Lemma filter_false {A} (l : list A) : filter (fun _ => false) l = [].
 Proof. induction l; simpl; auto. Qed.
+
+Lemma filter_const {A} (p : A -> bool) (b : bool) l : (forall e, In e l -> p e = b) -> filter p l = if b then l else [].
+Proof.
+  intros H. rewrite (filter_ext_in _ (fun _ => b) _ H). destruct b; [apply filter_true|apply filter_false].
+Qed.
 
 Lemma join_case d sl sr cl cr on (UL UR : list uid) :
   Inv d sl cl -> Aux cl -> Inv d sr cr -> Aux cr -> Base cl -> Base cr ->
@@ -1259,6 +1278,181 @@ Proof.
   - cbn [group do_join]. symmetry. exact PL.
 Qed.
 
+Definition left_join_compiled (cl cr : compiled) (on : expr) : compiled :=
+  let ds := c_defs cr ++ c_defs cl in
+  let q := c_q cl in
+  {| c_from := FRows (fun d =>
+                  flat_map (fun bl =>
+                              match filter (fun br => on_holds ds on (bl ++ br)%list
+                                                      && all_true (c_defs cr) (q_where (c_q cr)) (mk1 (bl ++ br)%list))
+                                           (base_rows d cr) with
+                              | [] => [bl]
+                              | ms => map (fun br => (bl ++ br)%list) ms
+                              end)
+                           (base_rows d cl));
+     c_cols := c_cols cl ++ c_cols cr;
+     c_q := {| q_select := q_select q ++ q_select (c_q cr); q_part := q_part q; q_group := q_group q;
+               q_where := q_where q; q_having := q_having q;
+               q_order := q_order q; q_limit := q_limit q; q_offset := q_offset q; q_summ := q_summ q |};
+     c_labels := c_labels cr ++ c_labels cl;
+     c_defs := ds;
+     c_scope := c_scope cl ++ c_scope cr |}.
+
+Lemma left_join_case d sl sr cl cr on (UL UR : list uid) :
+  Inv d sl cl -> Aux cl -> Inv d sr cr -> Aux cr -> Base cl -> Base cr ->
+  keys_in UL (rows sl) -> keys_in UR (rows sr) ->
+  q_summ (c_q cl) = false -> no_limit (c_q cl) = true -> is_nil (q_order (c_q cl)) = true -> q_part (c_q cl) = [] -> ds_elem_b (c_defs cl) = true ->
+  q_summ (c_q cr) = false -> no_limit (c_q cr) = true -> is_nil (q_order (c_q cr)) = true -> ds_elem_b (c_defs cr) = true ->
+  elem on = true -> scoped (c_scope cl ++ c_scope cr) on = true ->
+  (forall x, In x (c_scope cl) -> ~ In x UR) -> (forall x, In x (c_scope cr) -> ~ In x UL) ->
+  (forall x, In x (c_cols cl) -> ~ In x (c_cols cr)) ->
+  (forall x, In x (map fst (c_defs cl)) -> ~ In x (map fst (c_defs cr))) ->
+  (forall x, In x (q_select (c_q cl)) -> ~ In x (map fst (c_labels cr))) ->
+  (forall x, In x (map fst (c_defs cr)) -> exists k, def_of (c_defs cr) x = ECol k) ->
+  Inv d (do_join sl sr on JLeft) (left_join_compiled cl cr on) /\ Aux (left_join_compiled cl cr on).
+Proof.
+  intros Il Al Ir Ar Bl Br KL KR SuL NLl NOl PL DEl SuR NLr NOr DEr Eon Son DsR DsL Dc Dd Dl PlainR.
+  pose proof (ds_elem_b_spec _ DEl) as Dl'. pose proof (ds_elem_b_spec _ DEr) as Dr'.
+  destruct (a_nosumm cl Al SuL) as [HhL HgL]. destruct (a_nosumm cr Ar SuR) as [HhR HgR].
+  set (dsl := c_defs cl) in *. set (dsr := c_defs cr) in *. set (ds := dsr ++ dsl).
+  set (Bsl := base_rows d cl). set (Bsr := base_rows d cr).
+  set (wl := fun b : row => all_true dsl (q_where (c_q cl)) (mk1 b)).
+  set (wr := fun b : row => all_true dsr (q_where (c_q cr)) (mk1 b)).
+  (* reference rows of the operands, related to the FROM rows that pass WHERE *)
+  destruct Il as [Rl Sl Gl]. destruct Ir as [Rr Sr Gr].
+  rewrite (final_units_rows d cl Al SuL NLl NOl) in Rl. cbv zeta in Rl.
+  apply (units_plain_out (c_scope cl) dsl _ _ Dl') in Rl. fold Bsl wl in Rl.
+  rewrite (final_units_rows d cr Ar SuR NLr NOr) in Rr. cbv zeta in Rr.
+  apply (units_plain_out (c_scope cr) dsr _ _ Dr') in Rr. fold Bsr wr in Rr.
+  (* definitions of the joined query *)
+  assert (DefL : forall x, In x (map fst dsl) -> def_of ds x = def_of dsl x).
+  { intros x Hx. unfold ds. apply def_of_app_other. intros C. apply (Dd x Hx C). }
+  assert (DefR : forall x, In x (map fst dsr) -> def_of ds x = def_of dsr x).
+  { intros x Hx. unfold ds, def_of. destruct (assoc_u_in_dom _ _ Hx) as [e He]. rewrite (assoc_u_app_found _ _ _ _ He), He. reflexivity. }
+  assert (ElemDs : ds_elem ds).
+  { intros x. destruct (def_of_app_cases dsr dsl x) as [E|E]; unfold ds; rewrite E; [apply Dr'|apply Dl']. }
+  (* a FROM row of one operand is read unchanged inside a joined FROM row *)
+  assert (GetL : forall bl br k, In bl Bsl -> In br Bsr -> In k (c_cols cl) -> get (bl ++ br) k = get bl k).
+  { intros bl br k Hbl Hbr Hk. apply get_app_nokey_r. intros C. apply (Dc k Hk). apply (b_keys cr Br d br k Hbr C). }
+  assert (GetR : forall bl br k, In bl Bsl -> In br Bsr -> In k (c_cols cr) -> get (bl ++ br) k = get br k).
+  { intros bl br k Hbl Hbr Hk. apply get_app_nokey_l. intros C. apply (Dc k (b_keys cl Bl d bl k Hbl C) Hk). }
+  assert (EvL : forall bl br x, In bl Bsl -> In br Bsr -> In x (map fst dsl) ->
+                 eval [] (0%nat, (bl ++ br)%list) (def_of ds x) = eval [] (0%nat, bl) (def_of dsl x)).
+  { intros bl br x Hbl Hbr Hx. rewrite (DefL x Hx). apply eval_on_cols. intros k Hk.
+    apply (GetL bl br k Hbl Hbr). apply (b_defs cl Bl x k Hk). }
+  assert (EvR : forall bl br x, In bl Bsl -> In br Bsr -> In x (map fst dsr) ->
+                 eval [] (0%nat, (bl ++ br)%list) (def_of ds x) = eval [] (0%nat, br) (def_of dsr x)).
+  { intros bl br x Hbl Hbr Hx. rewrite (DefR x Hx). apply eval_on_cols. intros k Hk.
+    apply (GetR bl br k Hbl Hbr). apply (b_defs cr Br x k Hk). }
+  (* WHERE of the joined query = WHERE of the left row and WHERE of the right row *)
+  assert (WhL : forall bl br, In bl Bsl -> In br Bsr -> all_true ds (q_where (c_q cl)) (mk1 (bl ++ br)%list) = wl bl).
+  { intros bl br Hbl Hbr. unfold wl, all_true. apply forallb_ext_in'. intros p Hp. f_equal. unfold ev, mk1. cbn [fst snd].
+    rewrite (subst_ext_on p dsl ds) by (intros x Hx; apply DefL; apply (a_where_dom cl Al p Hp x Hx)).
+    apply eval_on_cols. intros k Hk. apply (GetL bl br k Hbl Hbr). apply (cols_subst _ dsl (b_defs cl Bl) p k Hk). }
+  assert (WhR : forall bl br, In bl Bsl -> In br Bsr -> all_true ds (q_where (c_q cr)) (mk1 (bl ++ br)%list) = wr br).
+  { intros bl br Hbl Hbr. unfold wr, all_true. apply forallb_ext_in'. intros p Hp. f_equal. unfold ev, mk1. cbn [fst snd].
+    rewrite (subst_ext_on p dsr ds) by (intros x Hx; apply DefR; apply (a_where_dom cr Ar p Hp x Hx)).
+    apply eval_on_cols. intros k Hk. apply (GetR bl br k Hbl Hbr). apply (cols_subst _ dsr (b_defs cr Br) p k Hk). }
+  (* the FROM rows of the joined query that pass its WHERE *)
+  set (cj := left_join_compiled cl cr on).
+  assert (WhL0 : forall bl, all_true ds (q_where (c_q cl)) (mk1 bl) = wl bl).
+  { intros bl. unfold wl, all_true. apply forallb_ext_in'. intros p Hp. f_equal. unfold ev.
+    rewrite (subst_ext_on p dsl ds) by (intros x Hx; apply DefL; apply (a_where_dom cl Al p Hp x Hx)). reflexivity. }
+  assert (WhR' : forall bl br, In bl Bsl -> In br Bsr -> all_true dsr (q_where (c_q cr)) (mk1 (bl ++ br)%list) = wr br).
+  { intros bl br Hbl Hbr. unfold wr, all_true. apply forallb_ext_in'. intros p Hp. f_equal. unfold ev, mk1. cbn [fst snd].
+    apply eval_on_cols. intros k Hk. apply (GetR bl br k Hbl Hbr). apply (cols_subst _ dsr (b_defs cr Br) p k Hk). }
+  assert (EW : filter (fun b => all_true (c_defs cj) (q_where (c_q cj)) (mk1 b)) (base_rows d cj)
+               = flat_map (fun bl => match filter (fun br => on_holds ds on (bl ++ br)%list) (filter wr Bsr) with
+                                     | [] => [bl]
+                                     | ms => map (fun br => (bl ++ br)%list) ms
+                                     end)
+                          (filter wl Bsl)).
+  { unfold base_rows at 1. unfold cj, left_join_compiled. cbn [c_from c_defs c_q q_where]. fold dsl dsr ds Bsl Bsr.
+    rewrite filter_flat_map, <- flat_map_filter_if. apply flat_map_ext_in. intros bl Hbl.
+    assert (EF : filter (fun br => on_holds ds on (bl ++ br)%list && all_true dsr (q_where (c_q cr)) (mk1 (bl ++ br)%list)) Bsr
+                 = filter (fun br => on_holds ds on (bl ++ br)%list) (filter wr Bsr)).
+    { rewrite (filter_ext_in _ (fun br => on_holds ds on (bl ++ br)%list && wr br)).
+      - rewrite filter_andb. apply filter_filter_comm.
+      - intros br Hbr. rewrite (WhR' bl br Hbl Hbr). reflexivity. }
+    rewrite EF.
+    assert (Hall : forall e, In e (match filter (fun br => on_holds ds on (bl ++ br)%list) (filter wr Bsr) with
+                                   | [] => [bl] | ms => map (fun br => (bl ++ br)%list) ms end) ->
+                             all_true ds (q_where (c_q cl)) (mk1 e) = wl bl).
+    { intros e He. destruct (filter (fun br => on_holds ds on (bl ++ br)%list) (filter wr Bsr)) as [|m ms] eqn:Ef.
+      - destruct He as [<-|[]]. apply WhL0.
+      - apply in_map_iff in He. destruct He as [br [<- Hbr]]. apply (WhL bl br Hbl).
+        assert (Hin : In br (filter (fun br => on_holds ds on (bl ++ br)%list) (filter wr Bsr))) by (rewrite Ef; exact Hbr).
+        apply filter_In in Hin. destruct Hin as [Hin _]. apply filter_In in Hin. tauto. }
+    apply filter_const. exact Hall. }
+  (* a joined reference row and the joined FROM row agree *)
+  assert (AgJ : forall lr rr bl br, In lr (rows sl) -> In rr (rows sr) -> In bl Bsl -> In br Bsr ->
+                 agrees_on (c_scope cl) dsl (mk1 bl) lr -> agrees_on (c_scope cr) dsr (mk1 br) rr ->
+                 agrees_on (c_scope cl ++ c_scope cr) ds (mk1 (bl ++ br)%list) (lr ++ rr)%list).
+  { intros lr rr bl br Hlr Hrr Hbl Hbr Al0 Ar0 x Hx. unfold evd, mk1. cbn [fst snd]. apply in_app_or in Hx. destruct Hx as [Hx|Hx].
+    - rewrite get_app_nokey_r by (intros C; apply (DsR x Hx); apply (KR rr x Hrr C)).
+      rewrite (Al0 x Hx). unfold evd, mk1. cbn [fst snd]. symmetry. apply (EvL bl br x Hbl Hbr). apply (a_scope_dom cl Al x Hx).
+    - rewrite get_app_nokey_l by (intros C; apply (DsL x Hx); apply (KL lr x Hlr C)).
+      rewrite (Ar0 x Hx). unfold evd, mk1. cbn [fst snd]. symmetry. apply (EvR bl br x Hbl Hbr). apply (a_scope_dom cr Ar x Hx). }
+  assert (AgU : forall lr bl, In lr (rows sl) -> In bl Bsl -> agrees_on (c_scope cl) dsl (mk1 bl) lr ->
+                 agrees_on (c_scope cl ++ c_scope cr) ds (mk1 bl) lr).
+  { intros lr bl Hlr Hbl Al0 x Hx. unfold evd, mk1. cbn [fst snd]. apply in_app_or in Hx. destruct Hx as [Hx|Hx].
+    - rewrite (Al0 x Hx). unfold evd, mk1. cbn [fst snd]. rewrite (DefL x (a_scope_dom cl Al x Hx)). reflexivity.
+    - rewrite get_nokey by (intros C; apply (DsL x Hx); apply (KL lr x Hlr C)).
+      pose proof (a_scope_dom cr Ar x Hx) as Hd. rewrite (DefR x Hd). destruct (PlainR x Hd) as [k Hk].
+      assert (Hkc : In k (c_cols cr)) by (apply (b_defs cr Br x k); fold dsr; rewrite Hk; left; reflexivity).
+      fold dsr in Hk. rewrite Hk. simpl. symmetry. apply get_nokey. intros C. apply (Dc k (b_keys cl Bl d bl k Hbl C) Hkc). }
+  assert (SuJ : q_summ (c_q cj) = false) by exact SuL.
+  assert (NLJ : no_limit (c_q cj) = true) by exact NLl.
+  assert (NOJ : is_nil (q_order (c_q cj)) = true) by exact NOl.
+  assert (AUX : Aux cj).
+  { destruct Al as [A1 A2 A3 A4 A5 A6 A7 A8 A9 A10]. destruct Ar as [B1 B2 B3 B4 B5 B6 B7 B8 B9 B10].
+    constructor; unfold cj, left_join_compiled; cbn [c_scope c_defs c_q c_labels q_select q_part q_group q_where q_having q_order q_summ q_limit q_offset]; fold dsl dsr.
+    - intros x Hx. rewrite map_app. apply in_or_app. apply in_app_or in Hx. destruct Hx as [Hx|Hx]; [right; apply A1|left; apply B1]; exact Hx.
+    - intros x Hx. apply in_or_app. apply in_app_or in Hx. destruct Hx as [Hx|Hx]; [left; apply A2|right; apply B2]; exact Hx.
+    - intros x Hx. rewrite map_app. apply in_or_app. apply in_app_or in Hx. destruct Hx as [Hx|Hx]; [right; apply A3|left; apply B3]; exact Hx.
+    - intros x Hx. rewrite PL in Hx. destruct Hx.
+    - intros x Hx. rewrite HgL in Hx. destruct Hx.
+    - intros p Hp x Hx. rewrite map_app. apply in_or_app. right. apply (A6 p Hp x Hx).
+    - intros p Hp. rewrite HhL in Hp. destruct Hp.
+    - intros o Ho x Hx. rewrite map_app. apply in_or_app. right. apply (A8 o Ho x Hx).
+    - intros _. split; assumption.
+    - exact A10. }
+  split; [|exact AUX].
+  constructor.
+  - rewrite (final_units_rows d cj AUX SuJ NLJ NOJ). cbv zeta. rewrite EW.
+    apply (units_plain_in (c_scope cj) (c_defs cj) _ _ ElemDs).
+    cbn [rows do_join]. rewrite app_nil_r.
+    apply (Forall2_flat_map (fun lr bl => agrees_on (c_scope cl) dsl (mk1 bl) lr /\ In lr (rows sl) /\ In bl Bsl)).
+    + clear -Rl. assert (H : Forall2 (fun lr bl => agrees_on (c_scope cl) dsl (mk1 bl) lr /\ In bl (filter wl Bsl)) (rows sl) (filter wl Bsl)).
+      { apply Forall2_flip'. eapply Forall2_impl'; [|apply (Forall2_with_In _ _ _ (Forall2_flip' _ _ _ Rl))]. intros b r [H1 H2]. split; assumption. }
+      pose proof (Forall2_with_In _ _ _ H) as H'. eapply Forall2_impl'; [|exact H']. intros lr bl [[H1 H2] H3].
+      repeat split; [exact H1|exact H3|]. apply filter_In in H2. tauto.
+    + intros lr bl [Agl [Hlr Hbl]]. unfold join_branch.
+      assert (Hin : Forall2 (fun rr br => agrees_on (c_scope cr) dsr (mk1 br) rr /\ In rr (rows sr) /\ In br Bsr) (rows sr) (filter wr Bsr)).
+      { assert (H : Forall2 (fun rr br => agrees_on (c_scope cr) dsr (mk1 br) rr /\ In br (filter wr Bsr)) (rows sr) (filter wr Bsr)).
+        { apply Forall2_flip'. eapply Forall2_impl'; [|apply (Forall2_with_In _ _ _ (Forall2_flip' _ _ _ Rr))]. intros b r [H1 H2]. split; assumption. }
+        pose proof (Forall2_with_In _ _ _ H) as H'. eapply Forall2_impl'; [|exact H']. intros rr br [[H1 H2] H3].
+        repeat split; [exact H1|exact H3|]. apply filter_In in H2. tauto. }
+      assert (Hf : Forall2 (fun rr br => agrees_on (c_scope cr) dsr (mk1 br) rr /\ In rr (rows sr) /\ In br Bsr)
+                           (filter (on_true on lr) (rows sr)) (filter (fun br => on_holds ds on (bl ++ br)%list) (filter wr Bsr))).
+      { apply Forall2_filter; [exact Hin|]. intros rr br [Agr [Hrr Hbr]]. unfold on_true, on_holds. f_equal.
+        apply (subst_elem on Eon ds (mk1 (bl ++ br)%list) [] 0%nat (lr ++ rr)%list).
+        eapply agrees_on_incl; [apply scoped_incl; exact Son|]. apply (AgJ lr rr bl br Hlr Hrr Hbl Hbr Agl Agr). }
+      assert (Goal2 : Forall2 (fun r b => agrees_on (c_scope cj) (c_defs cj) (mk1 b) r)
+                              (map (fun rr => (lr ++ rr)%list) (filter (on_true on lr) (rows sr)))
+                              (map (fun br => (bl ++ br)%list) (filter (fun br => on_holds ds on (bl ++ br)%list) (filter wr Bsr)))).
+      { apply Forall2_map_l. apply Forall2_map_r. eapply Forall2_impl'; [|exact Hf]. intros rr br [Agr [Hrr Hbr]].
+        apply (AgJ lr rr bl br Hlr Hrr Hbl Hbr Agl Agr). }
+      destruct (filter (on_true on lr) (rows sr)) as [|rr0 rs0];
+        destruct (filter (fun br => on_holds ds on (bl ++ br)%list) (filter wr Bsr)) as [|br0 bs0];
+        [constructor; [apply (AgU lr bl Hlr Hbl Agl)|constructor] | inversion Hf | inversion Hf | exact Goal2].
+  - cbn [sel do_join]. unfold cj, left_join_compiled. cbn [c_q c_labels q_select]. rewrite map_app, Sl, Sr. f_equal.
+    + apply map_ext_in. intros u Hu. rewrite label_app_other by (apply Dl; exact Hu). reflexivity.
+    + apply map_ext_in. intros u Hu. f_equal. unfold label.
+      destruct (assoc_u_in_dom _ _ (a_sel_labels cr Ar u Hu)) as [n Hn]. rewrite (assoc_u_app_found _ _ _ _ Hn), Hn. reflexivity.
+  - cbn [group do_join]. symmetry. exact PL.
+Qed.
+
 (* ---------- the theorem ---------- *)
 Theorem compile_invariant d : forall a c, compile a = Some c -> flat_ok a = true -> Inv d (sem_ref d a) c /\ Aux c.
 Proof.
@@ -1312,25 +1506,53 @@ Proof.
   - destruct m as [m|]; [simpl in C; discriminate C|]. simpl in C, F. cbn [sem_ref do_alias]. apply IH; assumption.
   - simpl in C. discriminate C.
   - cbn [compile] in C. cbn [flat_ok] in F. destruct how; try discriminate C.
-    destruct (compile l) as [cl|] eqn:El; [|discriminate C]. destruct (compile r) as [cr|] eqn:Er; [|discriminate C].
-    inversion C; subst; clear C.
-    apply andb_prop in F. destruct F as [F F3]. apply andb_prop in F. destruct F as [F Fon]. apply andb_prop in F. destruct F as [Fl Fr].
-    repeat (apply andb_prop in F3; let H := fresh "G" in destruct F3 as [F3 H]).
-    repeat (apply andb_prop in G5; let H := fresh "P" in destruct G5 as [G5 H]).
-    repeat (apply andb_prop in F3; let H := fresh "Q" in destruct F3 as [F3 H]).
-    destruct (IHl cl eq_refl Fl) as [Il Al]. destruct (IHr cr eq_refl Fr) as [Ir Ar].
-    pose proof (compile_base l cl El) as Bl. pose proof (compile_base r cr Er) as Br.
-    cbn [sem_ref]. fold (join_compiled cl cr on).
-    apply negb_true_iff in F3. apply negb_true_iff in G5.
-    apply (join_case d (sem_ref d l) (sem_ref d r) cl cr on (ast_uids l) (ast_uids r)); try assumption.
-    + apply (rk_rows _ _ (ref_keys d l)).
-    + apply (rk_rows _ _ (ref_keys d r)).
-    + destruct (q_part (c_q cl)); [reflexivity|discriminate].
-    + apply disjointb_spec. assumption.
-    + apply disjointb_spec. assumption.
-    + apply disjointb_spec. assumption.
-    + apply disjointb_spec. assumption.
-    + apply disjointb_spec. assumption.
+    + destruct (compile l) as [cl|] eqn:El; [|discriminate C]. destruct (compile r) as [cr|] eqn:Er; [|discriminate C].
+      inversion C; subst; clear C.
+      apply andb_prop in F. destruct F as [F F3]. apply andb_prop in F. destruct F as [F Fon]. apply andb_prop in F. destruct F as [Fl Fr].
+      repeat (apply andb_prop in F3; let H := fresh "G" in destruct F3 as [F3 H]).
+      repeat (apply andb_prop in G5; let H := fresh "P" in destruct G5 as [G5 H]).
+      repeat (apply andb_prop in F3; let H := fresh "Q" in destruct F3 as [F3 H]).
+      destruct (IHl cl eq_refl Fl) as [Il Al]. destruct (IHr cr eq_refl Fr) as [Ir Ar].
+      pose proof (compile_base l cl El) as Bl. pose proof (compile_base r cr Er) as Br.
+      cbn [sem_ref]. fold (join_compiled cl cr on).
+      apply negb_true_iff in F3. apply negb_true_iff in G5.
+      apply (join_case d (sem_ref d l) (sem_ref d r) cl cr on (ast_uids l) (ast_uids r)); try assumption.
+      * apply (rk_rows _ _ (ref_keys d l)).
+      * apply (rk_rows _ _ (ref_keys d r)).
+      * destruct (q_part (c_q cl)); [reflexivity|discriminate].
+      * apply disjointb_spec. assumption.
+      * apply disjointb_spec. assumption.
+      * apply disjointb_spec. assumption.
+      * apply disjointb_spec. assumption.
+      * apply disjointb_spec. assumption.
+    + destruct (compile l) as [cl|] eqn:El; [|discriminate C]. destruct (compile r) as [cr|] eqn:Er; [|discriminate C].
+      inversion C; subst; clear C.
+      apply andb_prop in F. destruct F as [F F3]. apply andb_prop in F. destruct F as [F Fon]. apply andb_prop in F. destruct F as [Fl Fr].
+      apply andb_prop in F3. destruct F3 as [F3 Dlab]. apply andb_prop in F3. destruct F3 as [F3 Ddef].
+      apply andb_prop in F3. destruct F3 as [F3 Dcol]. apply andb_prop in F3. destruct F3 as [F3 DsL].
+      apply andb_prop in F3. destruct F3 as [F3 DsR]. apply andb_prop in F3. destruct F3 as [F3 Fsc].
+      apply andb_prop in F3. destruct F3 as [F3 Fplain]. apply andb_prop in F3. destruct F3 as [Pl Pr].
+      repeat (apply andb_prop in Pl; let H := fresh "L" in destruct Pl as [Pl H]).
+      repeat (apply andb_prop in Pr; let H := fresh "R" in destruct Pr as [Pr H]).
+      destruct (IHl cl eq_refl Fl) as [Il Al]. destruct (IHr cr eq_refl Fr) as [Ir Ar].
+      pose proof (compile_base l cl El) as Bl. pose proof (compile_base r cr Er) as Br.
+      cbn [sem_ref]. fold (left_join_compiled cl cr on).
+      apply negb_true_iff in Pl. apply negb_true_iff in Pr.
+      apply (left_join_case d (sem_ref d l) (sem_ref d r) cl cr on (ast_uids l) (ast_uids r)); try assumption.
+      * apply (rk_rows _ _ (ref_keys d l)).
+      * apply (rk_rows _ _ (ref_keys d r)).
+      * destruct (q_part (c_q cl)); [reflexivity|discriminate].
+      * apply disjointb_spec. assumption.
+      * apply disjointb_spec. assumption.
+      * apply disjointb_spec. assumption.
+      * apply disjointb_spec. assumption.
+      * apply disjointb_spec. assumption.
+      * intros x Hx. destruct (assoc_u_in_dom _ _ Hx) as [e He]. unfold def_of. rewrite He.
+        rewrite forallb_forall in Fplain.
+        assert (Hin : In (x, e) (c_defs cr)).
+        { clear -He. induction (c_defs cr) as [|[k v] L IH]; simpl in He; [discriminate|].
+          destruct (N.eqb_spec x k) as [->|N]; [inversion He; subst; left; reflexivity|right; apply IH; exact He]. }
+        specialize (Fplain (x, e) Hin). simpl in Fplain. destruct e; try discriminate. eexists. reflexivity.
   - cbn [compile] in C. cbn [flat_ok] in F.
     destruct (compile l) as [cl|] eqn:El; [|discriminate C]. destruct (compile r) as [cr|] eqn:Er; [|discriminate C].
     destruct (union_right_select cl cr) as [rsel|] eqn:Es; [|discriminate C]. inversion C; subst; clear C.
